@@ -53,3 +53,34 @@ Definition spec_digest (t : tx) (spent : list txout) (o : op) : option bytes :=
   | _ => option_map Htag (spec_msg t spent o)
   end.
 End QUERY.
+
+(* ---------- vocabulary of the irrelevance statements (C03_uncommitted_irrelevant) ---------- *)
+(* two inputs that differ at most in script_sig, script witness and pegin witness *)
+Definition in_sig_eq (a b : txin) : Prop :=
+  in_prev a = in_prev b /\ in_pegin a = in_pegin b /\ in_seq a = in_seq b /\ in_iss a = in_iss b /\
+  w_amount_rp (in_wit a) = w_amount_rp (in_wit b) /\ w_keys_rp (in_wit a) = w_keys_rp (in_wit b).
+(* ... at most in script_sig and in ANY witness field *)
+Definition in_core_eq (a b : txin) : Prop :=
+  in_prev a = in_prev b /\ in_pegin a = in_pegin b /\ in_seq a = in_seq b /\ in_iss a = in_iss b.
+(* two outputs that differ at most in their witness (surjection proof, range proof) *)
+Definition out_core_eq (a b : txout) : Prop :=
+  out_asset a = out_asset b /\ out_value a = out_value b /\ out_nonce a = out_nonce b /\ out_script a = out_script b.
+Definition tx_sig_eq (t t' : tx) : Prop :=
+  tx_version t = tx_version t' /\ tx_lock t = tx_lock t' /\ Forall2 in_sig_eq (tx_in t) (tx_in t') /\ tx_out t = tx_out t'.
+Definition tx_core_eq (t t' : tx) : Prop :=
+  tx_version t = tx_version t' /\ tx_lock t = tx_lock t' /\ Forall2 in_core_eq (tx_in t) (tx_in t') /\ Forall2 out_core_eq (tx_out t) (tx_out t').
+(* same version, lock time and inputs; outputs arbitrary *)
+Definition tx_eq_but_outputs (t t' : tx) : Prop := tx_version t = tx_version t' /\ tx_lock t = tx_lock t' /\ tx_in t = tx_in t'.
+(* same version, lock time, outputs, and the same input at position idx; the other inputs (and their number) arbitrary *)
+Definition tx_eq_at_input (idx : nat) (t t' : tx) : Prop :=
+  tx_version t = tx_version t' /\ tx_lock t = tx_lock t' /\ tx_out t = tx_out t' /\ nth_error (tx_in t) idx = nth_error (tx_in t') idx.
+(* same version, lock time, inputs, and the same output at position idx *)
+Definition tx_eq_at_output (idx : nat) (t t' : tx) : Prop :=
+  tx_version t = tx_version t' /\ tx_lock t = tx_lock t' /\ tx_in t = tx_in t' /\ nth_error (tx_out t) idx = nth_error (tx_out t') idx.
+(* the inputs with the sequence numbers of all inputs other than idx erased *)
+Definition set_seq (i : txin) (q : N) : txin :=
+  {| in_prev := in_prev i; in_pegin := in_pegin i; in_script := in_script i; in_seq := q; in_iss := in_iss i; in_wit := in_wit i |}.
+Definition erase_other_sequences (idx : nat) (l : list txin) : list txin := mapi (fun n i => if Nat.eqb n idx then i else set_seq i 0) l.
+Definition tx_eq_but_other_sequences (idx : nat) (t t' : tx) : Prop :=
+  tx_version t = tx_version t' /\ tx_lock t = tx_lock t' /\ tx_out t = tx_out t' /\
+  erase_other_sequences idx (tx_in t) = erase_other_sequences idx (tx_in t').
